@@ -254,11 +254,13 @@ package goat
 
 //@ func goat.(*proxyClient).readLoop
 //@   nopanic[C17.nopanic C16.nopanic]
+//@   ctxaware[C17.no_goroutine_parked_after_cancel] ctx
 //@   requires ctx != nil && c.conn != nil
 //@   atcall[C16.offer_each_envelope_once C17.offer_under_own_name] send : arg1.id == c.id && (arg1.rpc != nil ==> arg1.rpc == rpc && arg1.err == nil) && (arg1.rpc == nil ==> arg1.err != nil && arg1.client == c)
 
 //@ func goat.(*proxyClient).writeLoop
 //@   nopanic[C17.nopanic C16.nopanic]
+//@   ctxaware[C17.no_goroutine_parked_after_cancel] ctx
 //@   requires ctx != nil && c.conn != nil
 //@   atcall[C16.write_unchanged] (types.RpcReadWriter).Write : arg2 == rpc && arg1 == ctx
 
@@ -272,8 +274,9 @@ package goat
 
 //@ func goat.(*proxyClient).connect
 //@   nopanic[C17.nopanic]
+//@   ctxaware[C17.no_goroutine_parked_after_cancel] ctx
 //@   requires newConnection != nil && ctx != nil
-//@   ensures[C17.dial_error_reported_not_started] bound("err") && err != nil ==> ncalls("send") == old(ncalls("send")) + 1 && ncalls("go:(*github.com/avos-io/goat.proxyClient).readWrite") == old(ncalls("go:(*github.com/avos-io/goat.proxyClient).readWrite"))
+//@   ensures[C17.dial_error_reported_not_started] bound("err") && err != nil ==> (ncalls("send") == old(ncalls("send")) + 1 || done(ctx)) && ncalls("go:(*github.com/avos-io/goat.proxyClient).readWrite") == old(ncalls("go:(*github.com/avos-io/goat.proxyClient).readWrite"))
 
 // ---------------------------------------------------------------------------------
 // demultiplexer and channel transport
